@@ -273,11 +273,22 @@ def build_property(ctx, regenerate=None, extra_targets=()):
         return False
     # Print Assumptions output
     closed = out.count("Closed under the global context")
-    axioms = re.findall(r"^Axioms:\n((?:[ \t]*\S.*\n?)+)", out, re.M)
-    ctx.print_assumptions = f"{closed} x 'Closed under the global context'" + \
-        ("".join("; Axioms: " + a.strip() for a in axioms) if axioms else "")
+    axiom_blocks = re.findall(r"^Axioms:\n((?:[ \t]*\S.*\n?)+?)(?=^\S|\Z)", out, re.M)
+    axiom_lines = sorted({ln.strip() for blk in re.findall(r"^Axioms:\n((?:.+\n?)+)", out, re.M) for ln in blk.splitlines()
+                          if ln.strip() and not ln.startswith("Axioms:") and ":" in ln and not ln.startswith("COQ")})
+    # kernel primitives (binary64 floats of the traversal model) are listed by Print Assumptions although they are
+    # not axioms declared anywhere in this development; anything else is refused
+    primitives = [a for a in axiom_lines if a.startswith("PrimFloat.")]
+    foreign = [a for a in axiom_lines if not a.startswith("PrimFloat.")]
     n_pa = len(re.findall(r"Print Assumptions", strip_comments(src)))
-    ax_ok = not axioms and closed == n_pa and n_pa >= len(theorems)
+    n_listed = len(re.findall(r"^Axioms:", out, re.M))
+    ctx.print_assumptions = f"{closed} x 'Closed under the global context'" + \
+        (f"; {n_listed} x only the kernel primitive(s) {primitives}" if primitives else "") + \
+        ("".join("; AXIOM: " + a for a in foreign) if foreign else "")
+    if primitives:
+        ctx.trusted.append("Coq's primitive binary64 floats (PrimFloat: kernel primitives with their OCaml implementation), used to mirror "
+                           "the float accumulation of occupied_wait; Print Assumptions lists the primitive type, no axiom is declared")
+    ax_ok = not foreign and closed + n_listed == n_pa and n_pa >= len(theorems)
     for t in theorems:
         ctx.obligation(t, "theorem", ax_ok, "" if ax_ok else "Print Assumptions not closed")
     if not ax_ok:
@@ -292,7 +303,7 @@ def build_property(ctx, regenerate=None, extra_targets=()):
 
 
 # --------------------------------------------------------------------------- evaluating models
-PRELUDE = ("From Coq Require Import List NArith ZArith Bool String.\n"
+PRELUDE = ("From Coq Require Import List NArith ZArith Bool String PrimFloat.\n"
            "Import ListNotations.\nFrom I2N Require Import Common.Harness.\n")
 
 
